@@ -32,11 +32,11 @@ var solvers = []solverCfg{
 func backgroundAxioms(used map[string]bool) []*Term {
 	var out []*Term
 	r, k := BVar("r", SInt), BVar("k", SInt)
-	if used["sub"] {
+	if used["sub"] || used["rootof"] {
 		s := App("sub", SInt, r, k)
 		out = append(out, Forall([]*Term{r, k}, [][]*Term{{s}}, And(Lt(s, Num(0)), Eq(App("subbase", SInt, s), r), Eq(App("subidx", SInt, s), k), Eq(App("refkind", SInt, s), Num(1)))))
 	}
-	if used["elem"] {
+	if used["elem"] || used["rootof"] {
 		s := App("elem", SInt, r, k)
 		out = append(out, Forall([]*Term{r, k}, [][]*Term{{s}}, And(Lt(s, Num(0)), Eq(App("elembase", SInt, s), r), Eq(App("elemidx", SInt, s), k), Eq(App("refkind", SInt, s), Num(2)))))
 	}
@@ -47,6 +47,15 @@ func backgroundAxioms(used map[string]bool) []*Term {
 	if used["emptyset"] {
 		e := App("emptyset", SArr(SInt, SBool))
 		out = append(out, Forall([]*Term{k}, [][]*Term{{Select(e, k)}}, Not(Select(e, k))))
+	}
+	if used["rootof"] {
+		// rootof(x): the allocated object an (embedded / element) reference belongs to
+		x := App("rootof", SInt, r)
+		out = append(out, Forall([]*Term{r}, [][]*Term{{x}}, Implies(Le(Num(0), r), Eq(x, r))))
+		sx := App("sub", SInt, r, k)
+		out = append(out, Forall([]*Term{r, k}, [][]*Term{{sx}}, Eq(App("rootof", SInt, sx), App("rootof", SInt, r))))
+		ex := App("elem", SInt, r, k)
+		out = append(out, Forall([]*Term{r, k}, [][]*Term{{ex}}, Eq(App("rootof", SInt, ex), App("rootof", SInt, r))))
 	}
 	if used["boxv"] {
 		s := App("boxv", SInt, r)
